@@ -203,6 +203,7 @@ func (fr *frame) execBlock(b *ssa.BasicBlock, st *bstate) {
 			for _, r := range x.Results {
 				vals = append(vals, fr.val(r))
 			}
+			fr.beforeReturnAsserts(x, st, vals)
 			fr.rets = append(fr.rets, retState{st: &bstate{reach: st.reach, heap: st.heap, seg: st.seg}, vals: vals})
 		case *ssa.Panic:
 			if f.sweep["panic"] {
